@@ -1,5 +1,5 @@
 """C27 — the test cluster holds exactly the module's eligible callables."""
-from pyvc.contracts import assumption, contract, for_property, global_var, klass, lemma, loop, predicate, ufun
+from pyvc.contracts import assumption, contract, for_property, global_var, klass, lemma, loop, predicate, ufun, value_type
 
 for_property("C27")
 MO = "pynguin.analyses.module"
@@ -28,7 +28,7 @@ predicate("lastseg(s)", "s.rpartition('.')[2]")
 
 # ---- proved: a function / method is marked as under test only if it belongs to the module under test and its name is eligible
 klass("pynguin.analyses.module:ModuleTestCluster", fields={}, ghost={"g_added": "int"})
-klass("pynguin.analyses.typesystem:TypeInfo", fields={})
+klass("pynguin.analyses.typesystem:TypeInfo", fields={"raw_type": "PyObj"})
 contract(f"{MO}:ModuleTestCluster.add_accessible_object_under_test", mode="assume", sig={"self": "ModuleTestCluster"},
          modifies=["self.g_added"], ensures=["self.g_added == old(self.g_added) + 1"])
 contract(f"{MO}:ModuleTestCluster.add_generator", mode="assume", sig={"self": "ModuleTestCluster"})
@@ -56,6 +56,11 @@ class HelperClass:
         pass
     def method(self):
         return 3
+class Handler:
+    def handle(self):
+        return 11
+    def flush(self):
+        return 12
 '''
 _SUBJECT = '''
 import enum
@@ -130,6 +135,12 @@ class Color(enum.Enum):
 class Derived(HelperClass):
     def own(self):
         return 10
+
+class Handler(hm.Handler):
+    def handle(self):
+        return 13
+    def emit(self):
+        return 14
 '''
 
 
@@ -178,7 +189,9 @@ def cluster_problems(vis_name, ignore=()):
         seen_callables = set()
         for a in under:
             if isinstance(a, GenericMethod):
-                owner_mod, name, kind = a.owner.raw_type.__module__, a.method_name, "method"
+                # (a method is defined where its code lives: an inherited method of a foreign base class is foreign)
+                owner_mod = getattr(inspect.unwrap(a.callable), "__module__", None) or a.owner.raw_type.__module__
+                name, kind = a.method_name, "method"
                 seen_callables.add(a.callable)
             elif isinstance(a, GenericFunction):
                 owner_mod, name, kind = a.callable.__module__, (a.function_name or "").rpartition(".")[2], "function"
@@ -282,13 +295,24 @@ contract(f"{MO}:__analyse_function",
          ensures=[c.format(n="old(func_name)") for c in UT] + [
              # a lambda is registered under the name it is assigned to: that name must be eligible as well
              "implies(test_cluster.g_added != old(test_cluster.g_added), not skipvis(lastseg(func_name)))"])
+# only members a class defines itself are analysed for it (inherited members of a foreign base class are foreign code):
+# Python objects compare by identity here (type.__eq__), modelled as equality of abstract values
+value_type("PyObj")
+ufun("DEFCLS_KNOWN", ["PyObj"], "bool")
+ufun("DEFCLS", ["PyObj"], "PyObj")
+contract("pynguin.utils.type_utils:get_class_that_defined_method", mode="assume", sig={"method": "PyObj"}, returns="Optional[PyObj]",
+         ensures=["(result is not None) == DEFCLS_KNOWN(method)", "implies(result is not None, result == DEFCLS(method))"])
+contract(f"{MO}:__is_method_defined_in_class", sig={"class_": "PyObj", "method": "PyObj"}, returns="bool",
+         ensures=["result == (DEFCLS_KNOWN(method) and class_ == DEFCLS(method))"])
 contract(f"{MO}:__analyse_method",
-         sig={"type_info": "TypeInfo", "method_name": "str", "method": "SutValue", "type_inference_provider": "SutValue",
+         sig={"type_info": "TypeInfo", "method_name": "str", "method": "PyObj", "type_inference_provider": "SutValue",
               "class_tree": "SutValue", "test_cluster": "ModuleTestCluster", "add_to_test": "bool"},
          globals_in={"pynguin.configuration.configuration": "Configuration"}, raises={"*": "True"},
          modifies=["test_cluster.g_added"],
          ensures=[c.format(n="method_name") for c in UT] + [
-             "implies(test_cluster.g_added != old(test_cluster.g_added), method_name != '__init__')"])
+             "implies(test_cluster.g_added != old(test_cluster.g_added), method_name != '__init__')",
+             "implies(test_cluster.g_added != old(test_cluster.g_added), "
+             "        DEFCLS_KNOWN(method) and DEFCLS(method) == type_info.raw_type)"])
 contract(f"{MO}:__should_skip_by_visibility", sig={"name": "str", "add_to_test": "bool"}, returns="bool",
          globals_in={"pynguin.configuration.configuration": "Configuration"},
          ensures=[
